@@ -125,6 +125,21 @@ fn words32(n: u64, k: u64) -> u64 {
     }
 }
 
+/// two flips of the SAME bit index in two different words (biased to the top bit): differences that
+/// cancel in a sum / XOR style comparison
+fn flip_image_twice(img: &mut [u8], pos: u64, word: usize) {
+    let nwords = img.len() / word;
+    if nwords < 2 {
+        return;
+    }
+    let i = (pos % nwords as u64) as usize;
+    let j = (i + 1 + ((pos >> 20) % (nwords as u64 - 1)) as usize) % nwords;
+    let bit = if (pos >> 40) % 4 != 0 { word * 8 - 1 } else { ((pos >> 44) % (word as u64 * 8)) as usize };
+    for k in [i, j] {
+        img[k * word + bit / 8] ^= 1 << (bit % 8);
+    }
+}
+
 fn flip_image(img: &mut [u8], sel: u64, pos: u64, tail_words: usize, word: usize) {
     // region selector: 0 => anywhere; 1 => in the trailing scalar fields (a, b, c / last words)
     let nbits = img.len() as u64 * 8;
@@ -265,7 +280,8 @@ impl Scenario for C10 {
                     spec.pre = rng.below(4) as u32;
                     spec.ops = gen_suffix(rng, kind, 8);
                 }
-                spec.aux = vec![rng.below(2), rng.u64() >> 8];
+                // selector: 0 anywhere, 1 trailing scalars, 2/3 two flips of the same bit in two words
+                spec.aux = vec![rng.below(4), rng.u64() >> 4];
             }
             16 | 17 => {
                 spec.variant = "core".into();
@@ -308,7 +324,7 @@ impl Scenario for C10 {
     }
 
     fn rule(&self) -> String {
-        "Each run is one of: (clone) a C05-style prefix history on one of the 19 deterministic types, so that forks happen mid-block and with a half pending, then clone(), `fork == original` where == exists, then a suffix of next_u32/next_u64/fill_bytes/jump/long_jump applied to both in lock-step (identical results, still equal after every op, 2-block drain); (the clone is made with clone() or, in a third of the runs, with clone_from() into an unrelated generator of the same type that is already in use); (two_seeds) two generators or cores built from DIFFERENT, often near-equal (one flipped bit) seeds through any route, compared fresh or after the same public history: if == says equal their futures must be identical; (skew) the converse: after the fork the two sides are advanced by different call shapes (one next_u32, d words inside the block, one whole block, next_u64 vs two next_u32, fill(8) vs two fill(4), random), then `a == b` is evaluated: if it says equal both must have identical futures under the probe suffix, and two Hc128Rng at different read positions of the same block must compare unequal; (bitflip) one bit of the stored bincode image of a non-buffered generator or of IsaacCore/Isaac64Core is flipped (anywhere, or in the trailing scalar fields a/b/c) and the image deserialised: if original == flipped their futures must be identical; (core) Hc128Core/IsaacCore/Isaac64Core: clone (made with clone(), or with clone_from() into an unrelated core of the same or another age) == original, identical generate() blocks in lock-step, and cores compared after one side ran k extra generate() calls; (isaac_array) two result buffers differing in exactly one element must be unequal, equal contents equal. distinct_nontrivial = distinct (type, fork buffer index, half flag, pair-construction kind, == verdict) signatures.".into()
+        "Each run is one of: (clone) a C05-style prefix history on one of the 19 deterministic types, so that forks happen mid-block and with a half pending, then clone(), `fork == original` where == exists, then a suffix of next_u32/next_u64/fill_bytes/jump/long_jump applied to both in lock-step (identical results, still equal after every op, 2-block drain); (the clone is made with clone() or, in a third of the runs, with clone_from() into an unrelated generator of the same type that is already in use); (two_seeds) two generators or cores built from DIFFERENT, often near-equal (one flipped bit) seeds through any route, compared fresh or after the same public history: if == says equal their futures must be identical; (skew) the converse: after the fork the two sides are advanced by different call shapes (one next_u32, d words inside the block, one whole block, next_u64 vs two next_u32, fill(8) vs two fill(4), random), then `a == b` is evaluated: if it says equal both must have identical futures under the probe suffix, and two Hc128Rng at different read positions of the same block must compare unequal; (bitflip) one bit - or the same bit (mostly the top bit) of two different words, differences that cancel in a checksum-style comparison - of the stored bincode image of a non-buffered generator or of IsaacCore/Isaac64Core is flipped (anywhere, or in the trailing scalar fields a/b/c) and the image deserialised: if original == flipped their futures must be identical; (core) Hc128Core/IsaacCore/Isaac64Core: clone (made with clone(), or with clone_from() into an unrelated core of the same or another age) == original, identical generate() blocks in lock-step, and cores compared after one side ran k extra generate() calls; (isaac_array) two result buffers differing in exactly one element must be unequal, equal contents equal. distinct_nontrivial = distinct (type, fork buffer index, half flag, pair-construction kind, == verdict) signatures.".into()
     }
     fn assumptions(&self) -> Vec<String> {
         vec![
@@ -334,6 +350,7 @@ impl Scenario for C10 {
             "probe:two_seeds_eq_false",
             "probe:two_seeds_fresh_compared",
             "probe:core_clone_from",
+            "probe:bitflip_two_cancelling",
         ]
     }
 }
@@ -528,7 +545,12 @@ impl C10 {
                 None => return Err(E::End(RunEnd::Discard("no_snapshot".into()))),
             };
             let word = if ck == CoreKind::IsaacCore { 4 } else { 8 };
-            flip_image(&mut img, sel, pos, 3, word);
+            if sel >= 2 {
+                flip_image_twice(&mut img, pos, word);
+                st.count("probe:bitflip_two_cancelling");
+            } else {
+                flip_image(&mut img, sel, pos, 3, word);
+            }
             let mut b = match restore_core(ck, SnapFmt::Bincode, &img) {
                 Ok(b) => b,
                 Err(_) => return Err(E::End(RunEnd::Discard("flipped_image_rejected".into()))),
@@ -559,7 +581,12 @@ impl C10 {
             None => return Err(E::End(RunEnd::Discard("no_snapshot".into()))),
         };
         let word = (kind.word_bits() / 8) as usize;
-        flip_image(&mut img, sel, pos, 1, word);
+        if sel >= 2 {
+            flip_image_twice(&mut img, pos, word);
+            st.count("probe:bitflip_two_cancelling");
+        } else {
+            flip_image(&mut img, sel, pos, 1, word);
+        }
         let mut b = match restore(kind, SnapFmt::Bincode, &img) {
             Ok(b) => b,
             Err(_) => return Err(E::End(RunEnd::Discard("flipped_image_rejected".into()))),
